@@ -381,6 +381,12 @@ class TableNotAffine(Exception):
                 % (self.entry, self.table, self.inst.where()))
 
 
+class ReadOutside(Exception):
+    def __init__(self, inst, off, nb):
+        Exception.__init__(self, 'read of %d byte(s) at offset %d' % (nb, off))
+        self.inst, self.off, self.nb = inst, off, nb
+
+
 class DataDependentBranch(Exception):
     def __init__(self, inst):
         self.inst = inst
@@ -397,6 +403,7 @@ class FuncEval(BlockEval):
         BlockEval.__init__(self, fn, mod)
         self.max_steps = max_steps
         self.reads = []      # (param name, offset, width)
+        self.read_limit = None   # when set: a read outside [0, limit) of a pointer parameter stops the evaluation (ReadOutside)
         self.bytes = {}      # (base, off) -> BV(8)
         for n, a in enumerate(args):
             self.env[('a', n)] = a
@@ -488,6 +495,8 @@ class FuncEval(BlockEval):
             if isinstance(p, tuple) and p[0] == 'p' and p[1] is not None and i.ty.get('k') == 'int':
                 nb = i.bits // 8
                 self.reads.append((p[1], p[2], nb, i))
+                if self.read_limit is not None and (p[2] < 0 or p[2] + nb > self.read_limit):
+                    raise ReadOutside(i, p[2], nb)
                 bits = []
                 for k in range(nb):
                     bits += self.byte(p[1], p[2] + k).bits
